@@ -121,11 +121,14 @@ theorem range_mask (co : ChanCoef) (tBB cS cBB cE v : ℝ) :
     btMasked co false tBB cS cBB cE = some v ↔ (v = btRaw co tBB cS cBB cE ∧ 170 ≤ v ∧ v ≤ 350) :=
   Thermal.range_mask co tBB cS cBB cE v
 
-/-- telemetry enters a pixel only through its own line's smoothed values: the per-pixel function
-has no other argument (its type) -/
-theorem perline_broadcast (co : ChanCoef) (is3b : Bool) (tBB cS cBB cE : ℝ) :
-    ∃ f : ChanCoef → Bool → ℝ → ℝ → ℝ → ℝ → Option ℝ, f co is3b tBB cS cBB cE = btMasked co is3b tBB cS cBB cE :=
-  ⟨btMasked, rfl⟩
+/-- telemetry enters a pixel only through its own line's smoothed values: entry (i, j) of the output
+array is the per-pixel formula at telemetry row i and count (i, j), for every array -/
+theorem perline_broadcast (co : ChanCoef) (is3b : Bool) (tele : List (ℝ × ℝ × ℝ)) (counts : List (List ℝ))
+    (i j : Nat) (p : ℝ × ℝ × ℝ) (row : List ℝ) (c : ℝ)
+    (hp : tele[i]? = some p) (hr : counts[i]? = some row) (hc : row[j]? = some c) :
+    ((calArray co is3b tele counts)[i]?.bind (·[j]?)) = some (btMasked co is3b p.1 p.2.2 p.2.1 c) := by
+  unfold calArray calLine
+  simp [List.getElem?_zipWith, hp, hr, hc]
 
 /-- non-vacuity: a clean cycle starting in the middle of a PRT cycle with a line-number gap -/
 example : findOffset [3, 4, 5, 6, 9, 10, 11, 12] [280, 281, 0, 278, 281, 2, 278, 279] = some 2 ∧
